@@ -75,6 +75,11 @@ func work(seed int64, gid, nops int) []string {
 			var b bool
 			err := objIns.Compare(shared, inspector.Op(1+r.Intn(6)), strconv.Itoa(70+r.Intn(20)), &b, "Status")
 			res = fmt.Sprint("cmp ", b, err)
+			// paths that do not resolve to a leaf: absent key, index out of range, unknown field, a pointer field itself
+			cp := [][]string{{"Flags", "nokey"}, {"Finance", "History", "9", "Cost"}, {"Nope"}, {"Finance"}, {"HistoryTree", "zz", "Cost"}, {"Permission", "99"}}[r.Intn(6)]
+			var b2 bool
+			err2 := objIns.Compare(shared, inspector.OpNq, "nil", &b2, cp...)
+			res += fmt.Sprint(" cmp2 ", b2, err2)
 		case 4:
 			var n int
 			err := objIns.Length(shared, &n, "Finance", "History")
@@ -85,6 +90,10 @@ func work(seed int64, gid, nops int) []string {
 			it := &iter{want: r.Intn(2) == 0}
 			err := objIns.Loop(shared, it, &lbuf, "Finance", "History")
 			res = fmt.Sprint("loop ", it.n, it.keys, err)
+			lp := [][]string{{"Flags"}, {"Flags", "x"}, {"Nope"}, {"Finance"}, {"HistoryTree"}, {"Finance", "History", "0"}, {"Permission"}}[r.Intn(7)]
+			it2 := &iter{}
+			err2 := objIns.Loop(shared, it2, &lbuf, lp...)
+			res += fmt.Sprint(" loop2 ", it2.n, err2)
 		case 6:
 			res = fmt.Sprint("deq ", objIns.DeepEqual(shared, shared2), objIns.DeepEqualWithOptions(shared, shared2, &inspector.DEQOptions{Exclude: map[string]struct{}{"Cost": {}}}))
 		case 7:
